@@ -2,6 +2,10 @@ mod e1;
 mod explore;
 mod graphs;
 mod report;
+mod seq_fs;
+mod seq_inc;
+mod seq_resolve;
+mod sequtil;
 mod sys;
 mod world;
 
@@ -42,6 +46,24 @@ fn run_check(id: &str) -> i32 {
                 "C11" => e1::check_c11(&mut rep),
                 "C17" => e1::check_c17(&mut rep),
                 _ => e1::check_c20(&mut rep),
+            }
+            rep.finish()
+        }
+        "C02" | "C03" | "C13" => {
+            let mut rep = Report::new(id, "model_checking");
+            match id {
+                "C02" => seq_inc::check_c02(&mut rep),
+                "C03" => seq_inc::check_c03(&mut rep),
+                _ => seq_inc::check_c13(&mut rep),
+            }
+            rep.finish()
+        }
+        "C09" | "C15" | "C19" => {
+            let mut rep = Report::new(id, "model_checking");
+            match id {
+                "C09" => seq_resolve::check_c09(&mut rep),
+                "C15" => seq_fs::check_c15(&mut rep),
+                _ => seq_resolve::check_c19(&mut rep),
             }
             rep.finish()
         }
@@ -113,6 +135,30 @@ fn bench(which: &str) -> i32 {
     let n = 20000;
     let t0 = std::time::Instant::now();
     match which {
+        "inc" => {
+            let l = seq_inc::layouts().into_iter().find(|l| l.name == "directory").unwrap();
+            let t1 = std::time::Instant::now();
+            let o = seq_inc::run_histories(&l, &seq_inc::ops_for(&l), 1, usize::MAX, seq_inc::Oracle::SkipOnlyWhenAllowed, "bench");
+            println!("histories={} invocations={} in {:?}", o.histories, o.invocations, t1.elapsed());
+            let root = sequtil::scratch("benchm");
+            let t2 = std::time::Instant::now();
+            for i in 0..100 { let r = root.join(format!("m{}", i)); std::fs::create_dir_all(&r).unwrap(); let _ = seq_inc::materialise(&l, &r); }
+            println!("materialise: {:?} each", t2.elapsed() / 100);
+            let r = root.join("x"); std::fs::create_dir_all(&r).unwrap();
+            let mut sc = seq_inc::materialise(&l, &r);
+            let t3 = std::time::Instant::now();
+            for _ in 0..100 { let _ = seq_inc::invoke(&mut sc, &l); }
+            println!("invoke: {:?} each", t3.elapsed() / 100);
+            let t5 = std::time::Instant::now();
+            for i in 0..50 { sequtil::write(&r.join("src/a.txt"), format!("v{}", i).as_bytes()); sequtil::set_mtime(&r.join("src/a.txt"), 1_800_000_000 + i); let _ = seq_inc::invoke(&mut sc, &l); }
+            println!("invoke(executing): {:?} each", t5.elapsed() / 50);
+            let t6 = std::time::Instant::now();
+            for i in 0..50 { let d = sequtil::scratch(&format!("bb{}", i)); let _ = std::fs::remove_dir_all(&d); }
+            println!("scratch+remove: {:?} each", t6.elapsed() / 50);
+            let t4 = std::time::Instant::now();
+            for _ in 0..100 { let _ = seq_inc::take_snap(&sc.input, &sc.output); }
+            println!("take_snap: {:?} each", t4.elapsed() / 100);
+        }
         "new" => {
             for _ in 0..n {
                 let s = sys::Sys::new(cfg.clone(), None);
